@@ -172,6 +172,9 @@ func main() {
 				inconc = append(inconc, fmt.Sprintf("unit %s: bad result file %s: %v", u.Name, filepath.Base(f), err))
 				continue
 			}
+			if !strings.HasPrefix(r.Check, p.ID+".") {
+				continue // a harness shared by several properties: keep this property's oracle only
+			}
 			for i := range r.Violations {
 				if r.Violations[i].Replay == nil {
 					r.Violations[i].Replay = map[string]any{}
